@@ -212,8 +212,8 @@ LEVELS = {
     "C17": ("Proved: every operation on a closed handle fails with ErrClosed and changes nothing; handles are independent; close then closed. "
             "Checked every run: histories mixing namespace changes with open handles: model = implementation, implementation = os.File.",
             "Refuted (known finding): a write/truncate/chmod through a handle whose path was removed or replaced resurrects or clobbers the name."),
-    "C18": ("Proved over the transaction model: one result per call in call order; Get sees the store and earlier Sets of the transaction; a handler's error becomes the operation's error; nothing after Abort has an effect; the in-memory store's mutex is released exactly once by whatever call ends the transaction, including a Commit whose context is already cancelled; the serial fallback refuses such a Commit, holds nothing and leaves the store usable. "
-            "Checked every run: 3000 transaction scripts model = implementation (mem store through the build-tagged constructor, and the serial fallback); a second transaction (read-only, read-write) started while one is live must wait and then see all its Sets.",
+    "C18": ("Proved over the transaction model: one result per call in call order; Get sees the store and earlier Sets of the transaction; a handler's error becomes the operation's error; nothing after Abort has an effect; the in-memory store's mutex is released exactly once by whatever call ends the transaction, including a Commit whose context is already cancelled; an ended transaction never touches the mutex, the store or the fatal-error flag again, whatever is still called on it and whoever holds the mutex by then; the serial fallback refuses such a Commit, holds nothing and leaves the store usable. "
+            "Checked every run: 3000 transaction scripts model = implementation (mem store through the build-tagged constructor, and the serial fallback); a second transaction (read-only, read-write) started while one is live must wait and then see all its Sets -- also when an earlier transaction is ended a second time (Abort/Commit after Abort/Commit) meanwhile.",
             ""),
     "C19": ("Proved: blob.Bytes operations never panic or self-deadlock; reachable blobs are well-formed; out-of-range arguments give an error and change nothing, in-range are accepted; Len/Bytes/View/Slice/Set/Grow/Truncate are the list operations; views write through. "
             "Checked every run: 1500 operation sequences over view trees model = implementation; 1200 sequences on the typed-array blob (indexeddb/idbblob) compiled for GOOS=js GOARCH=wasm and run under node against the []byte reference (in-range: lengths and bytes; out-of-range: no panic, nothing modified).",
